@@ -236,6 +236,30 @@ def buildImpersonationRequests (h : Headers) : Option (List ImpReq) :=
   if (hasGroups || hasUserExtra) && !hasUser then none
   else some (userReqs ++ groups.map ImpReq.group ++ extraRequests h)
 
+/-- the `authorizer.AttributesRecord` of one check (verb `impersonate`, `ResourceRequest: true`, `User` = the requestor) -/
+structure Attrs where
+  apiGroup : Str
+  resource : Str
+  subresource : Str
+  ns : Str
+  name : Str
+deriving DecidableEq, Repr
+
+/-- "serviceaccounts", "users", "groups", "userextras", "authentication.k8s.io" -/
+def resServiceAccounts : Str := [115, 101, 114, 118, 105, 99, 101, 97, 99, 99, 111, 117, 110, 116, 115]
+def resUsers : Str := [117, 115, 101, 114, 115]
+def resGroups : Str := [103, 114, 111, 117, 112, 115]
+def resUserExtras : Str := [117, 115, 101, 114, 101, 120, 116, 114, 97, 115]
+def authenticationGroup : Str := [97, 117, 116, 104, 101, 110, 116, 105, 99, 97, 116, 105, 111, 110, 46, 107, 56, 115, 46, 105, 111]
+
+/-- the record built in the loop body for one reference: `APIGroup` from the reference's APIVersion, `Namespace` and `Name`
+    of the reference, `Resource` / `Subresource` set by the `switch` -/
+def attrsFor : ImpReq → Attrs
+  | .sa ns name => ⟨[], resServiceAccounts, [], ns, name⟩
+  | .user name => ⟨[], resUsers, [], [], name⟩
+  | .group name => ⟨[], resGroups, [], [], name⟩
+  | .extra key value => ⟨authenticationGroup, resUserExtras, key, [], value⟩
+
 inductive Decision where
   | allow | deny | noOpinion | error
 deriving DecidableEq, Repr
@@ -262,11 +286,11 @@ def accStep (groupsSpecified : Bool) (a : Acc) : ImpReq → Acc
   | .extra key value => { a with userExtra := a.userExtra ++ [(key, [value])] }
 
 /-- the authorisation loop: `none` as soon as one request is not allowed (403) -/
-def authorizeAll (az : ImpReq → Decision) (groupsSpecified : Bool) : Acc → List ImpReq → Option Acc
+def authorizeAll (az : Attrs → Decision) (groupsSpecified : Bool) : Acc → List ImpReq → Option Acc
   | a, [] => some a
   | a, r :: rs =>
     let a' := accStep groupsSpecified a r
-    if (az r).allowed then authorizeAll az groupsSpecified a' rs else none
+    if (az (attrsFor r)).allowed then authorizeAll az groupsSpecified a' rs else none
 
 /-- the `system:authenticated` / `system:unauthenticated` post-processing of the group list -/
 def finalGroups (username : Str) (groups : List Str) : List Str :=
@@ -294,7 +318,7 @@ inductive FilterOut where
 deriving DecidableEq, Repr
 
 /-- `WithNoLoggingImpersonation` -/
-def impersonate (h : Headers) (requestor : Identity) (az : ImpReq → Decision) : FilterOut :=
+def impersonate (h : Headers) (requestor : Identity) (az : Attrs → Decision) : FilterOut :=
   match buildImpersonationRequests h with
   | none => .internalError
   | some [] => .pass h requestor
@@ -392,10 +416,11 @@ inductive Outcome where
   | forwarded (received : Headers) (ctxUser : Identity)
 deriving DecidableEq, Repr
 
-/-- One request: raw client header lines, the authenticator's answer, the authorizer, the gateway's bearer token.
+/-- One request: raw client header lines, the authenticator's answer, the authorizer (the cluster's POLICY: a function of
+    the attributes record it is asked about), the gateway's bearer token.
     `upgrade`: on the upgrade path only `WrapRequest` is applied (the client-go wrappers are bypassed).
     Order of the filters: `Gen.C02.proxyChain` (authentication, then impersonation, then dispatcher). -/
-def serve (token : Str) (raw : List (Str × Str)) (auth : Option Identity) (az : ImpReq → Decision)
+def serve (token : Str) (raw : List (Str × Str)) (auth : Option Identity) (az : Attrs → Decision)
     (upgrade : Bool) : Outcome :=
   match parse raw with
   | none => .badRequest
